@@ -105,16 +105,22 @@ CLAIMS = {
 ADDENDA = {
  "C01": " The group template is evaluated with the tag index used only as an index (a lone ${tag} on token 0 is a tag, not a string part).",
  "C02": " Every worker is started before the state from which callbacks are accepted is published.",
- "C05": " The pattern selected is the matcher's: literal, placeholder, wildcard in that order with a failed recursive match falling through (C06.R1 obligations).",
+ "C05": " The pattern selected is the matcher's: literal, placeholder, wildcard in that order with a failed recursive match falling through (C06.R1 obligations). The mux path is stripped only at a token boundary (C06.R7 obligations).",
  "C07": " The token-reset subject is tested non-empty in addition to the path validator, which accepts the empty path.",
- "C08": " Every resource constructed with a routed handler is given the listeners of the same match.",
- "C09": " A subscription error is tested or returned before the next subscription is made (typestate over subscribe and its helpers).",
- "C12": " A mutation never decides from a stale cached before-value (C11.K2 obligations).",
- "C13": " In the index scan offset, limit and the result only count entries the key filter accepted (per-iteration typestate).",
- "C14": " Init announces as created only what it wrote (C12.I2 obligations).",
- "C16": " The lazily defaulted ownership lists are exempt only when the defaulting provably closes their ==nil guard (non-nil on every path), so that later ResetAll calls only read.",
- "C18": " Envelope members the client does not declare (meta) are tolerated: no strict decoder in the client package.",
- "C20": " No slice that may hold a field of the handler is appended to, copied into or stored into.",
+ "C08": " Every resource constructed with a routed handler is given the listeners of the same match. In a method that notifies listeners, every path that published reaches the listener notification.",
+ "C09": " A subscription error is tested or returned before the next subscription is made (typestate over subscribe and its helpers). The subscribing function is called only from the start-up sequence.",
+ "C12": " A mutation never decides from a stale cached before-value (C11.K2 obligations). The adder of Init either collects an entry or records a non-nil error that the transaction body returns before writing.",
+ "C13": " In the index scan offset, limit and the result only count entries the key filter accepted (per-iteration typestate). No success return inside a loop over the indexes of the store.",
+ "C14": " Init announces as created only what it wrote (C12.I2 obligations). No queued closure captures a re-assigned loop variable (C15.C1 obligations).",
+ "C16": " The lazily defaulted ownership lists are exempt only when the defaulting provably closes their ==nil guard (non-nil on every path), so that later ResetAll calls only read. In the stop sequence per-run fields are written before the stopped state is published.",
+ "C18": " Envelope members the client does not declare (meta) are tolerated: no strict decoder in the client package. Value.Equal reads, per value class, only members the parser assigns on every path to that class.",
+ "C20": " No slice that may hold a field of the handler is appended to, copied into or stored into. Bytes handed to Txn.Set are never backed by a pooled buffer.",
+ "C03": " The stop transition out of the started state is one compare-and-swap.",
+ "C04": " No call on the optional logger is reachable without a non-nil test of it (the logging helpers run where a panic kills the process).",
+ "C06": " Placeholder records are compared member by member at registration; every trie traversal that carries positions rebinds its mount index at mount points.",
+ "C10": " The registration-time traversal that tells a handler its pattern is mount-aware (C06.R11 obligations).",
+ "C15": " The expiry queues the nil call on every path.",
+ "C17": " The mux path is stripped only at a token boundary (C06.R7 obligations).",
 }
 
 NA = {}
